@@ -53,6 +53,9 @@ def cases(tier, seed):
             out.append({'k': 'illegal', 'sim': s, 'w': w})
     for s in SIMS:
         out.append({'k': 'step_multiple_resume', 'sim': s})
+    for c in ds[:8 if tier == 'quick' else 40]:
+        for s in SIMS:
+            out.append(dict(c, k='default_tracer', sim=s, K=2))
     return out
 
 
@@ -118,6 +121,78 @@ def do_inspect(case, ob, site):
                 goals.append(('inspect(%s)==trace[-1]@%d' % (n, t), to_bv(e['inspect'][n], w.bitwidth + 2) == to_bv(e['last'][n], w.bitwidth + 2),
                               site + ':inspect'))
         ob.prove_all(goals, pc, v)
+
+
+def _decoy_block():
+    b = pyrtl.Block()
+    with pyrtl.set_working_block(b, no_sanity_check=True):
+        x = pyrtl.Input(2, 'x_other')
+        y = pyrtl.Output(2, 'y_other')
+        y <<= ~x
+    return b
+
+
+def do_default_tracer(case, ob, site):
+    """the simulator's OWN default tracer (no tracer argument), with the simulated block passed as block= while another block
+    is the working block: every explicitly named wire of the simulated block is traced with the value a full trace shows"""
+    block = designs.build(case)
+    K, kind = case['K'], case['sim']
+    v = Vars()
+    named = {w.name for w in block.wirevector_set if not (w.name.startswith('tmp') or w.name.startswith('const_') or w.name.endswith("'"))
+             and not isinstance(w, pyrtl.Const)}
+    io = {w.name for w in block.wirevector_subset((pyrtl.Input, pyrtl.Output))}
+    decoy = _decoy_block()
+    with sym_env([block]):
+        ref = run_sim(block, K, v, kind='sim', reg_init='reset', mem_init='default', track='all')
+
+    def inputs(t):
+        return {w.name: SymInt.mk(v.inp(w.name, t, w.bitwidth), False) for w in block.wirevector_subset(pyrtl.Input)}
+
+    def run():
+        with pyrtl.set_working_block(decoy, no_sanity_check=True):
+            if kind == 'compiled':
+                cm = CompiledModel(block, default_tracer=True)
+                cm.reset()
+                from pyrtl import compilesim as cs
+                sim = cm.sim
+                sim._crun = lambda steps, ibuf, obuf: cm.crun(steps, ibuf, obuf)
+                with sym.stubs(cs, ctypes=simdrv._CtypesShim(), int=sym.sym_int):
+                    for t in range(K):
+                        sim.step(inputs(t))
+            else:
+                cls = pyrtl.Simulation if kind == 'sim' else pyrtl.FastSimulation
+                sim = simdrv.symbolize_mems(cls(block=block), block, kind)
+                for t in range(K):
+                    sim.step(inputs(t))
+            return {n: list(sim.tracer.trace[n]) for n in sim.tracer.trace}
+    if kind == 'compiled':
+        paths = explore(run)
+    else:
+        with sym_env([block]):
+            paths = explore(run)
+    ob.paths += len(paths) + len(ref)
+    for p in paths:
+        if p.exc is not None:
+            ob.prove('default-tracer:no-exception(%s)' % type(p.exc).__name__, z3.Not(z3.And(*p.pc)) if p.pc else z3.BoolVal(False), [], v,
+                     site=site + ':exception')
+            continue
+        got = p.result
+        if kind == 'compiled':
+            ob.fact('default-tracer-covers-inputs-and-outputs', io <= set(got) <= named, site + ':names', detail=sorted(set(got) ^ io))
+        else:
+            ob.fact('default-tracer-tracks-the-named-wires-of-the-simulated-block', set(got) == named, site + ':names',
+                    detail=sorted(set(got) ^ named))
+        for r in ref:
+            if r.exc is not None:
+                continue
+            goals = []
+            for n in sorted(set(got) & set(r.trace)):
+                w = block.wirevector_by_name[n]
+                ob.fact('default-trace-length:%s' % n, len(got[n]) == K, site + ':length')
+                for t in range(min(K, len(got[n]))):
+                    goals.append(('default-trace:%s@%d' % (n, t), to_bv(got[n][t], w.bitwidth + 1) == to_bv(r.trace[n][t], w.bitwidth + 1),
+                                  site + ':value'))
+            ob.prove_all(goals, list(p.pc) + list(r.pc), v, vacuity=False)
 
 
 PH = re.compile(r'<<\d+(?::[a-z])?>>')
@@ -439,7 +514,7 @@ def do_illegal(case, ob, site):
 
 
 KINDS = {'inspect': do_inspect, 'step_multiple': do_step_multiple, 'vcd': do_vcd, 'print_trace': do_print_trace,
-         'rtl_assert': do_rtl_assert, 'illegal': do_illegal, 'step_multiple_resume': do_step_multiple_resume}
+         'rtl_assert': do_rtl_assert, 'default_tracer': do_default_tracer, 'illegal': do_illegal, 'step_multiple_resume': do_step_multiple_resume}
 
 
 def run_case(case, ob, tier):
